@@ -10,18 +10,22 @@ from common import Ctx, driver_json
 import core_lib as cl
 
 PROPERTY = "C18"
-LEAN_MODULES = ["Proofs.C18", "Proofs.C18.Rerun", "Proofs.C18.Periods"]
+LEAN_MODULES = ["Proofs.C18", "Proofs.C18.Rerun", "Proofs.C18.Periods", "Proofs.C18.Dynamic", "Proofs.C18.DynamicLoop"]
 DRIVERS = ["driver_core"]
 RULE = ("random bar grids (start minute 0..1300 of the day, interval 1/2/3/5/7/10/15/30/60 min, 3..90 bars) x 1..4 triggers per run drawn "
         "from every class of trigger.py with parameters placed relative to the grid (on a bar, between bars, before the first / after the "
         "last bar, with seconds, duplicated, reversed or empty ranges, periods dividing / not dividing the interval, coinciding periods, "
         "positive / negative / sub-minute delays, immediate flag, malformed periods); in 60 % of the cases the same strategy object — with the "
         "same trigger objects, some installed by the caller before the run, the others by initialize() — is run a second time with a fresh "
-        "Actuator on the same grid or on one with another start time / length, and judged against that grid; bucket = (class, parameter class, interval class, "
-        "fired-count class, retired or not, outcome)")
+        "Actuator on the same grid or on one with another start time / length, and judged against that grid; plus runs whose trigger actions "
+        "change strategy.triggers while the loop iterates it (append a new trigger, remove itself, remove the next one, remove an earlier one, "
+        "remove-then-append with nothing ahead, chains of installing triggers, triggers retiring on a bar where the next one is due): every when() "
+        "call is recorded, a trigger installed for the whole evaluation of a bar must be evaluated once and fire iff denoted; bucket = (class, "
+        "parameter class, interval class, fired-count class, retired or not, outcome) / (list changes, interval, triggers, skipped or not, adds, dels)")
 TRUSTED = ["bar times are taken from the implementation's own before_bar calls (the bar index itself is C05's subject)",
            "PriceTrigger / CustomizedTrigger are not time-based and are not part of the property"]
-ASSUMPTIONS = ["hooks do not mutate strategy.triggers during a run"]
+ASSUMPTIONS = ["a hook changes strategy.triggers in place with append / remove (no insert, no rebinding while the loop runs), removes only installed triggers, "
+               "and never installs an object that is installed already"]
 
 INTERVALS = (1, 1, 1, 2, 3, 5, 5, 7, 10, 15, 30, 60)
 
@@ -337,6 +341,10 @@ def param_class(sp, step):
 def check_case(ctx: Ctx, case, reqs=None):
     """run the implementation on the case (and, if asked for, the same strategy object a second time), evaluate the property on what it did;
     queue the model requests"""
+    if case.get("dyn"):
+        obs = run_dyn_impl(case)
+        judge_dyn(ctx, case, obs, reqs)
+        return obs
     first, second = run_impl(case)
     judge(ctx, case, first, reqs, False)
     if second is not None:
@@ -417,6 +425,222 @@ def judge(ctx: Ctx, case, obs, reqs, rerun):
                                            for k, v in sp.items()} for sp in specs]}))
 
 
+# ------------------------------------------------------------------------------------------ actions that change strategy.triggers while the loop runs
+def gen_often(rng, lo, hi, step, new_id=None):
+    """a trigger that is due on many bars, so that what happens around it shows"""
+    sp = rng.choice(({"k": "range", "kw": "{}", "s": lo, "e": hi + step},
+                     {"k": "period", "kw": "{}", "d": step, "imm": True, "pend": 0},
+                     {"k": "period", "kw": "{}", "d": 2 * step, "imm": rng.random() < 0.5, "pend": 0},
+                     {"k": "periods", "kw": "{}", "ds": [step, 3 * step], "imm": False, "pend": 0},
+                     {"k": "ranges", "kw": "{}", "rs": [[lo, lo + 3 * step], [lo + 5 * step, hi + step]]},
+                     {"k": "atTimes", "kw": "{}", "ss": [lo + step * j for j in range(0, 40, 2)]},
+                     {"k": "atTime", "kw": "{}", "s": lo + step * rng.randint(0, 5)}))
+    sp = dict(sp, kw=cl.kw_str({"n": rng.randint(0, 9)}) if rng.random() < 0.3 else "{}")
+    if new_id is not None:
+        sp["id"] = new_id
+    return sp
+
+
+def gen_dyn_case(rng):
+    interval = rng.choice((1, 1, 2, 5, 15, 60))
+    step = 60 * interval
+    nbars = rng.randint(3, 14)
+    start = 60 * rng.randint(0, 1300)
+    lo = start - start % step
+    hi = lo + step * (nbars - 1)
+    n0 = rng.choice((1, 2, 2, 3, 3, 4))
+    specs = []
+    for _ in range(n0):
+        sp = gen_often(rng, lo, hi, step) if rng.random() < 0.7 else gen_spec(rng, lo, hi, step)
+        if not should_construct(sp) or static_error(sp) is not None:
+            sp = gen_often(rng, lo, hi, step)
+        specs.append(sp)
+    ids = list(range(n0))
+    nxt = n0
+    muts = []
+    for _ in range(rng.choice((1, 2, 2, 3, 4, 6))):
+        row = rng.randrange(nbars)
+        who = rng.choice(ids)
+        k = rng.random()
+        body = []
+        if k < 0.3:
+            body.append(["del", who])                              # one-shot: removes itself
+        elif k < 0.45:
+            body.append(["del", rng.choice(ids)])                  # another one: before or behind the cursor
+        elif k < 0.8:
+            body.append(["add", gen_often(rng, lo, hi, step, nxt)])
+            ids.append(nxt)
+            nxt += 1
+            if rng.random() < 0.3:
+                body.append(["del", who])                          # replaces itself
+        else:
+            body.append(["del", who])
+            body.append(["add", gen_often(rng, lo, hi, step, nxt)])   # with nothing ahead the new one lands in a passed slot
+            ids.append(nxt)
+            nxt += 1
+        ent = next((e for e in muts if e[0] == row and e[1] == who), None)
+        if ent is None:
+            muts.append([row, who, body])
+        else:
+            ent[2].extend(body)
+    return {"start": start, "n": max(1, interval * nbars - rng.randint(0, interval - 1)), "interval": interval, "istr": f"{interval}min",
+            "specs": specs, "muts": muts, "dyn": True}
+
+
+def run_dyn_impl(case):
+    """the real Actuator with actions that append to / remove from strategy.triggers; every when() call is recorded"""
+    cl.setup()
+    from demeter import Strategy
+    obs = {"fires": [], "bars": [], "evals": [], "start": [], "live": [], "err": None, "where": None, "left": None, "changes": []}
+    objs = {}
+    ident = {}
+    table = {(r, i): body for r, i, body in case["muts"]}
+    state = {"row": -1}
+    strat = [None]
+
+    def install(sp, i):
+        def do(snapshot, **kw):
+            obs["fires"].append([cl.sec(snapshot.timestamp), i, cl.kw_str(kw)])
+            for m in table.get((snapshot.row_id, i), []):
+                if m[0] == "add":
+                    t = install(m[1], m[1]["id"])
+                    strat[0].triggers.append(t)
+                    obs["changes"].append([snapshot.row_id, "add", m[1]["id"]])
+                else:
+                    t = objs.get(m[1])
+                    if t is not None and t in strat[0].triggers:
+                        strat[0].triggers.remove(t)
+                        obs["changes"].append([snapshot.row_id, "del", m[1]])
+        t = construct(sp, do)
+        inner = t.when
+
+        def when(snapshot):
+            obs["evals"].append([snapshot.row_id, i])
+            return inner(snapshot)
+        t.when = when
+        objs[i] = t
+        ident[id(t)] = i
+        return t
+    first = [install(sp, i) for i, sp in enumerate(case["specs"])]
+
+    class S(Strategy):
+        def initialize(self):
+            self.triggers.extend(first)
+
+        def before_bar(self, snapshot):
+            obs["bars"].append(cl.sec(snapshot.timestamp))
+            obs["start"].append([ident[id(t)] for t in self.triggers])
+
+        def on_bar(self, snapshot):
+            obs["live"].append([ident[id(t)] for t in self.triggers])
+
+        def finalize(self):
+            obs["left"] = [ident[id(t)] for t in self.triggers]
+    strat[0] = S()
+    times = [case["start"] + 60 * i for i in range(case["n"])]
+    a, ms, rec = cl.build([("m", times, False)], times, case["istr"])
+    a.strategy = strat[0]
+    try:
+        a.run(print_result=False)
+    except Exception as e:  # noqa: BLE001
+        obs["err"] = type(e).__name__
+        obs["where"] = culprit(e)
+    return obs
+
+
+def judge_dyn(ctx: Ctx, case, obs, reqs):
+    """the property for triggers that come and go while the loop runs: a trigger that is installed when the evaluation of a bar starts (or is
+    installed during it) and is not removed during it is evaluated on that bar — exactly once —, and its action is called iff the bar is one of
+    the times its specification denotes (counted from the first bar it was evaluated on)"""
+    rep = dict(case)
+    bars = obs["bars"]
+    specs = {i: sp for i, sp in enumerate(case["specs"])}
+    for _, _, body in case["muts"]:
+        for m in body:
+            if m[0] == "add":
+                specs[m[1]["id"]] = m[1]
+    if obs["err"] is not None:
+        ctx.violate(f"{obs['where']}:{obs['err']}", f"{obs['where']} raised {obs['err']} in a run whose actions install / remove triggers", rep)
+        return
+    skipped = {}
+    for r, t in enumerate(bars):
+        added = [c[2] for c in obs["changes"] if c[0] == r and c[1] == "add"]
+        removed = {c[2] for c in obs["changes"] if c[0] == r and c[1] == "del"}
+        evals = [i for rr, i in obs["evals"] if rr == r]
+        for i in obs["start"][r] + added:
+            n = evals.count(i)
+            if n > 1:
+                ctx.violate("Actuator.run:trigger-evaluated-twice", f"trigger {i} evaluated {n} times on bar {r}", rep)
+            if i not in removed and n == 0:
+                skipped.setdefault(i, []).append(r)
+    t0 = {}
+    for r, i in obs["evals"]:
+        t0.setdefault(i, bars[r])
+    for i, sp in specs.items():
+        got = [f[0] for f in obs["fires"] if f[1] == i]
+        ev_bars = [bars[r] for r, j in obs["evals"] if j == i]
+        want = [t for t in ev_bars if denoted(sp, t0[i], t)] if i in t0 else []
+        if got != want:
+            ctx.violate("Actuator.run:dynamic-trigger-fired!=denoted", f"trigger {i} {json.dumps({k: v for k, v in sp.items() if k != 'kw'})} evaluated on {ev_bars[:8]} fired on "
+                        f"{got[:8]}, denoted {want[:8]}", rep)
+        if i in skipped:
+            due = [bars[r] for r in skipped[i] if i in t0 and denoted(sp, t0[i], bars[r])]
+            first_r = skipped[i][0]
+            ctx.violate("Actuator.run:trigger-skipped-after-removal-during-loop",
+                        f"trigger {i} {json.dumps({k: v for k, v in sp.items() if k != 'kw'})} was installed for the whole evaluation of bar {first_r} "
+                        f"({bars[first_r]}s) but its when() was not called: an action removed a trigger at or before the loop's cursor on that bar "
+                        f"(changes {[c for c in obs['changes'] if c[0] == first_r]}, list at the start {obs['start'][first_r]}) and the loop, which iterates the "
+                        f"live list by index, passed over it" + (f"; it missed its denoted time(s) {due[:4]}" if due else ""), rep)
+    kinds = sorted({m[0] for _, _, b in case["muts"] for m in b})
+    ctx.case(f"dyn:{'+'.join(kinds) or 'none'}:i{case['interval']}:n{min(len(case['specs']), 3)}:{'skip' if skipped else 'noskip'}:"
+             f"{'selfdel' if any(m == ['del', i] for _, i, b in case['muts'] for m in b) else '-'}:"
+             f"{min(3, sum(1 for c in obs['changes'] if c[1] == 'add'))}adds:{min(3, sum(1 for c in obs['changes'] if c[1] == 'del'))}dels",
+             {"bars": len(bars), "fires": len(obs["fires"]), "changes": obs["changes"][:6]})
+    if reqs is not None and bars:
+        reqs.append((rep, obs, {"fn": "trig_run_dyn", "bars": bars, "specs": case["specs"], "muts": case["muts"], "extra": 1000}))
+
+
+def compare_dyn(ctx: Ctx, rep, obs, ans):
+    if "error" in ans:
+        ctx.disagree(f"driver error {ans['error']}", rep)
+        return
+    mf = [[int(a), int(b), c] for a, b, c in ans["fires"]]
+    if obs["err"] != ans["err"]:
+        ctx.disagree(f"outcome: impl raised {obs['err']} model {ans['err']}", rep)
+        return
+    if mf != obs["fires"]:
+        k = next((i for i, (x, y) in enumerate(zip(mf, obs["fires"])) if x != y), min(len(mf), len(obs["fires"])))
+        ctx.disagree(f"action calls with list changes differ at call {k}: impl {obs['fires'][k - 1:k + 3]} model {mf[k - 1:k + 3]}", rep)
+        return
+    if [[int(x) for x in l] for l in ans["live"]] != obs["live"]:
+        ctx.disagree(f"strategy.triggers after the loop of each bar: impl {obs['live'][:6]} model {ans['live'][:6]}", rep)
+    if obs["err"] is None and [int(x) for x in ans["left"]] != obs["left"]:
+        ctx.disagree(f"triggers left installed: impl {obs['left']} model {ans['left']}", rep)
+
+
+def fixed_dyn_cases():
+    """append during do, self-removal, removal of the next trigger, removal of an earlier one, a trigger retiring on a bar where the next trigger is
+    due, removal with nothing ahead followed by an append"""
+    base = 8 * 3600
+    whole = {"k": "range", "kw": "{}", "s": base, "e": base + 3600}
+    every = {"k": "period", "kw": "{}", "d": 60, "imm": True, "pend": 0}
+    out = []
+
+    def case(specs, muts, n=8):
+        return {"start": base, "n": n, "interval": 1, "istr": "1min", "specs": specs, "muts": muts, "dyn": True}
+    out.append(case([whole, dict(every)], [[2, 0, [["add", dict(whole, id=2, kw=cl.kw_str({"n": 1}))]]]]))          # append during do
+    out.append(case([whole, dict(every), dict(whole)], [[3, 0, [["del", 0]]]]))                                       # self-removal: the next is passed over
+    out.append(case([whole, dict(every), dict(whole)], [[3, 0, [["del", 1]]]]))                                       # removal of the next trigger
+    out.append(case([whole, dict(every), dict(whole)], [[3, 1, [["del", 0]]]]))                                       # removal of an earlier one
+    out.append(case([{"k": "atTime", "kw": "{}", "s": base + 180}, {"k": "atTime", "kw": "{}", "s": base + 180}, dict(every)], []))   # retiring, next due
+    out.append(case([{"k": "atTime", "kw": "{}", "s": base + 180}, {"k": "atTime", "kw": "{}", "s": base + 180}], [[3, 0, [["del", 0]]]]))
+    out.append(case([whole], [[2, 0, [["del", 0], ["add", dict(every, id=1)]]]]))                                    # nothing ahead: the new one is not evaluated on that bar
+    out.append(case([whole, dict(every)], [[1, 0, [["add", dict(whole, id=2)]]], [1, 2, [["add", dict(every, id=3)], ["del", 2]]]]))
+    out.append(case([{"k": "range", "kw": "{}", "s": base, "e": base + 240}, dict(every)], [[3, 0, [["add", dict(whole, id=2)]]]]))   # last bar of a range: retires
+    return out
+
+
+
 def compare(ctx: Ctx, rep, obs, ans, specs):
     if "error" in ans:
         ctx.disagree(f"driver error {ans['error']}", rep)
@@ -457,11 +681,18 @@ def run(ctx: Ctx):
         check_case(ctx, case, reqs)
     for _ in range(n):
         check_case(ctx, gen_case(ctx.rng), reqs)
+    for case in fixed_dyn_cases():
+        check_case(ctx, case, reqs)
+    for _ in range(ctx.scale(250, 4000)):
+        check_case(ctx, gen_dyn_case(ctx.rng), reqs)
     ctx.impl_traces = len(reqs)
     if ctx.driver_ok and reqs:
         out = driver_json([r[2] for r in reqs], exe="driver_core")
         for (rep, obs, _), ans in zip(reqs, out):
-            compare(ctx, rep, obs, ans, rep["specs"])
+            if rep.get("dyn"):
+                compare_dyn(ctx, rep, obs, ans)
+            else:
+                compare(ctx, rep, obs, ans, rep["specs"])
 
 
 def replay(ctx: Ctx, case) -> bool:
